@@ -97,7 +97,7 @@ JOBS['C01'] = [
 
 # ---------------------------------------------------------------- C03
 META['C03'] = {
-    'bounds': {'quick': 'commands {w, w!, w o, w! o, wq, x, 1,2w! o, w p} x other file exists or not x edited file newer on disk or not x buffer shapes {empty file+1 line, 2, 4 short lines, three 3000-byte lines (three batches)} x one fault at every position 0..7 of the open/write/close sequence x {error return, short count of 1 byte / half / all but one}',
+    'bounds': {'quick': 'commands {w, w!, w o, w! o, wq, x, 1,2w! o, w p} x other file exists or not x edited file newer on disk or not x buffer shapes {empty file+1 line, 2, 4 short lines, three 3000-byte lines (three batches)} x optional earlier write to another path x one fault at every position 0..7 of the open/write/close sequence x {error return, short count of 1 byte / half / all but one}; all two-fault schedules for {w, wq} on the one-line and three-batch shapes',
                'thorough': 'adds the two-5000-byte-line shape (direct writes) and all two-fault schedules'},
     'outside': 'ftruncate and stat failures (not in the property); write() returning 0 for a non-empty request; allocation failure; :xa over several buffers (thorough job only)',
     'assumptions': ['a failed close() still releases the descriptor', 'the partial file left by a failed write is newer than the recorded mtime, so the retry uses w!'],
@@ -107,6 +107,9 @@ JOBS['C03'] = [
     {'name': 'write_faults', 'harness': 'c03_wr.c', 'units': 'ALL',
      'defs': {'quick': {'NF': 1, 'NSHAPES': 4}, 'thorough': {'NF': 2, 'NSHAPES': 5}},
      'expect_reach': ['end', 'foreign-guard', 'newer-guard', 'fault', 'shorts-only', 'clean'], 'timeout': {'quick': 280, 'thorough': 1700}},
+    {'name': 'two_faults', 'harness': 'c03_wr.c', 'units': 'ALL', 'tiers': ['quick'],
+     'defs': {'NF': 2, 'NSHAPES': 4, 'CMDMASK': '0x11', 'SHAPEMASK': '0xa'},
+     'expect_reach': ['end', 'fault', 'shorts-only'], 'timeout': 280},
 ]
 
 # ---------------------------------------------------------------- C02 / C20
